@@ -7,6 +7,8 @@ CONSTANTS
   UseRoles = {1, 2, 4}
   MinH2 = 3
   MinH3 = 2
+  MinH4 = 0
+  Dep3 = 1
   FundingRole = FALSE
   MaxExplored = 1
   MaxDup = 0
